@@ -38,6 +38,7 @@ pub struct ItsBinder {
     pub fk_meta: String,
     pub accts: Vec<String>,
     pub fresh: u32,
+    pub sac_meta: Option<(Vec<u8>, Vec<u8>, u32)>,
 }
 
 fn gw_inst() -> J {
@@ -63,6 +64,7 @@ impl ItsBinder {
             fk_meta: jstr(init, "fkMeta"),
             accts: { let mut a = jstrs(inst, "Accts"); a.sort(); a },
             fresh: 0,
+            sac_meta: None,
         };
         let env = b.g.cx.env.clone();
         let gw = b.g.gw.clone().unwrap();
@@ -122,6 +124,13 @@ impl ItsBinder {
         env.set_auths(&[]);
         for a in b.accts.clone() {
             b.g.cx.addr(&a);
+        }
+        if let Some(sac) = b.canon.get("sac").cloned() {
+            let sb = |x: Option<SStr>| -> Vec<u8> { x.map(|s| { let mut v = vec![0u8; s.len() as usize]; s.copy_into_slice(&mut v); v }).unwrap_or_default() };
+            let n: Option<SStr> = b.g.cx.query(&sac, "name", SVec::new(&env));
+            let s: Option<SStr> = b.g.cx.query(&sac, "symbol", SVec::new(&env));
+            let d: Option<u32> = b.g.cx.query(&sac, "decimals", SVec::new(&env));
+            b.sac_meta = Some((sb(n), sb(s), d.unwrap_or(7)));
         }
         b.apply_fk_meta();
         // token id table: what the contract derives for every abstract id
@@ -212,6 +221,10 @@ impl ItsBinder {
     }
     fn meta_concrete(&self, m: &str) -> (Vec<u8>, Vec<u8>, u32) {
         let e = &self.inst["Metas"][m];
+        if e["style"] == json!("sac") {
+            // whatever the real Stellar asset contract reports (read once at set-up)
+            return self.sac_meta.clone().unwrap_or((b"sac?".to_vec(), b"sac?".to_vec(), 7));
+        }
         let style = e["style"].as_str().unwrap_or("ascii");
         let mut name = Self::meta_text(style, e["nameLen"].as_u64().unwrap() as usize, false);
         let sym = Self::meta_text(style, e["symLen"].as_u64().unwrap() as usize, true);
